@@ -72,6 +72,9 @@ def _is_boolish(t):
     return t[0] in ("bin", "un") or (t[0] in ("call", "callm"))
 
 
+_IS_EMPTY = {"str::is_empty": "str::len", "String::is_empty": "String::len", "Vec::is_empty": "Vec::len",
+             "[]::is_empty": "[]::len"}
+
 _NEG = {"Lt": "Ge", "Le": "Gt", "Gt": "Le", "Ge": "Lt", "Eq": "Ne", "Ne": "Eq"}
 
 
@@ -87,6 +90,9 @@ def bool_facts(t, pol):
         if not pol:
             op = _NEG[op]
         return [cmp_fact(op, a, b)]
+    if t[0] == "call" and t[1] in _IS_EMPTY and len(t[2]) == 1:
+        # canonical emptiness fact: len(x) == 0
+        return [cmp_fact("Eq" if pol else "Ne", ("call", _IS_EMPTY[t[1]], t[2]), ("int", 0))]
     if t[0] == "bin" and t[1] == "BitAnd" and pol:
         return bool_facts(t[2], True) + bool_facts(t[3], True)
     if t[0] == "bin" and t[1] == "BitOr" and not pol:
